@@ -58,6 +58,11 @@ pub fn run(ctx: &Ctx) -> Report {
             terms.push(gen::closure_result(&mut rng));
             continue;
         }
+        if rng.chance(1, 12) {
+            // case on a constr with more fields than the branch binds: order of the left-over applications
+            terms.push(gen::case_leftover(&mut rng));
+            continue;
+        }
         let k = *rng.pick(&[K::Int, K::Bytes, K::Bool, K::Data, K::Any, K::ListData, K::Str]);
         let depth = 1 + rng.below(5);
         terms.push(tg.gen(&mut rng, k, &vec![], depth));
